@@ -91,3 +91,12 @@ claim('C17', 'Lean 4 proofs (fresh file scope, double/missing include rejected, 
       'compares split programs (nested includes, several include directories, symlinks) with the model and, for scope-neutral '
       'programs, the split image with the unsplit image on the real CLI.',
       NOTE + ' os.path.exists/realpath are parameters of the model.')
+
+claim('C16', 'Lean 4 proofs (decoders invert the reference encoders: Intel HEX records with checksum / 64K extension, compact hex, listing rows) + decode-level correspondence on real output',
+      'Kernel-checked theorems: an Intel HEX record is read back exactly and only with a valid checksum, the records of a run decode '
+      'to the run (16-byte records, 64 K boundaries, extended-address records); compact hex decodes to exactly the unmuted bytes at '
+      'their addresses when every gap is announced by an .org (partial: the excluded class is the listed finding, with a proved '
+      'counterexample); muted lines contribute to no format; listing rows map to address/byte pairs. Each run decodes the text the real '
+      'CLI prints in all four formats with these decoders and compares with the address->byte map recovered from two real .bin runs, '
+      'and matches listing rows against the assembled statements.',
+      NOTE + ' The third-party intelhex writer is not modelled; its output is only decoded. Known finding D17 (minhex-gap-without-org) is reported as KNOWN-FINDING.')
